@@ -15,6 +15,7 @@ Directives (each on its own line, starting with `//@`):
   //@loop <k>                  spec text for the k-th loop keyword of the body
   //@before <n> `literal`      ghost text inserted before n-th occurrence
   //@after <n> `literal`       ghost text inserted after n-th occurrence
+  //@afterstmt <n> `literal`   ghost text inserted after the `;` ending the statement that contains the n-th occurrence
   //@endfn
   //@item <repo-file> <kind> <Name> [rules=...]   item copied verbatim (fields made pub)
 
@@ -245,8 +246,8 @@ class Extractor:
             if s.startswith('//@loop '):
                 cur = ('loop', int(s.split()[1]), None, [])
                 splices.append(cur)
-            elif s.startswith('//@before ') or s.startswith('//@after '):
-                m = re.match(r'//@(before|after)\s+(\d+)\s+`(.*)`\s*$', s)
+            elif s.startswith('//@before ') or s.startswith('//@after ') or s.startswith('//@afterstmt '):
+                m = re.match(r'//@(before|afterstmt|after)\s+(\d+)\s+`(.*)`\s*$', s)
                 if not m:
                     raise ScanError('%s:%d: bad splice directive' % (unit_rel, ln))
                 cur = (m.group(1), int(m.group(2)), m.group(3), [])
@@ -301,7 +302,28 @@ class Extractor:
                 ms = list(rx.finditer(body))
                 if len(ms) < k:
                     raise ScanError('%s: fn %s: anchor `%s` occurrence %d not found (lost anchor)' % (file, name, lit, k))
-                off = ms[k - 1].start() if kind == 'before' else ms[k - 1].end()
+                if kind == 'before':
+                    off = ms[k - 1].start()
+                elif kind == 'after':
+                    off = ms[k - 1].end()
+                else:
+                    # end of the statement containing the match: next `;` at bracket depth 0
+                    q = ms[k - 1].start()
+                    depth = 0
+                    while q < len(mbody):
+                        ch = mbody[q]
+                        if ch in '([{':
+                            depth += 1
+                        elif ch in ')]}':
+                            depth -= 1
+                            if depth < 0:
+                                break
+                        elif ch == ';' and depth == 0:
+                            break
+                        q += 1
+                    if q >= len(mbody) or mbody[q] != ';':
+                        raise ScanError('%s: fn %s: no statement end after anchor `%s` (lost anchor)' % (file, name, lit))
+                    off = q + 1
             inserts.append((off, order, ls))
         inserts.sort()
         # emit
